@@ -34,11 +34,15 @@ func HEncryptStructure() {
 	pt := vr.Bytes(n)
 	keep := append([]byte{}, pt...)
 	reads0 := len(vr.RandLog())
+	tok := vr.FrameBegin(c)
 	ct, err := c.Encrypt(pt)
 	vr.Assert("c10.encrypt.noerr", err == nil)
 	if err != nil {
 		return
 	}
+	// the cipher object holds no per-message state: Encrypt writes nothing reachable from it
+	vr.Assert("c10.stateless.encrypt", vr.FrameUnchanged(tok))
+	ctKeep := append([]byte{}, ct...)
 	k := n/16 + 1
 	vr.Assert("c10.size", len(ct) == 16+16*k)
 	if len(ct) != 16+16*k {
@@ -81,6 +85,11 @@ func HEncryptStructure() {
 		}
 	}
 	vr.Assert("c10.iv-fresh-2", fresh2)
+	// the first ciphertext is still what it was and still decrypts to the plaintext
+	vr.Assert("c10.first-ciphertext-intact", vr.EqBytes(ct, ctKeep))
+	back1, err := c.Decrypt(ct)
+	vr.Assert("c10.first-ciphertext-decrypts", err == nil && vr.EqBytes(back1, keep))
+	vr.Assert("c10.stateless.all", vr.FrameUnchanged(tok))
 	p2 := vSpecDecrypt(key, ct2[:16], ct2[16:])
 	vr.Assert("c10.cbc.plaintext-2", len(p2) >= n && vr.EqBytes(p2[:n], keep))
 }
